@@ -14,6 +14,8 @@ the differential harness c24*.go + Driver/C24.lean). All statements are for ever
     list_buckets_duplicates_witness   … false as-is: a storage that is the value of two entries
     list_buckets_union_nodup_partial  … as-is it holds when no storage is asked twice and the
                                         storages hold disjoint names
+    list_buckets_union_nodup_reachable … which every history from empty storages guarantees when
+                                        the configuration lists no storage twice (as-is, full)
   cross_copy_eq_same_copy    a cross-storage CopyObject leaves in the destination storage exactly
                              what a same-storage CopyObject leaves (content, content type,
                              metadata, tags, storage class, version id, …)     (repaired)
@@ -144,6 +146,22 @@ theorem list_buckets_union_nodup_partial (cm : Bool) (c : Cfg) (ss : Stores)
   refine ⟨?_, mem_listBuckets _ c ss⟩
   unfold listBuckets
   exact (sortBy_perm _ _).nodup_iff.mpr (by simpa using nodup_flatMap_of _ _ hsrc hown hdisj)
+
+/-- **list_buckets_union_nodup_reachable** (the code AS IT IS). If the configuration lists no
+storage twice (no storage is the value of two map entries, the default is not mapped explicitly),
+then after ANY history through the middleware from empty storages, `ListBuckets` is the
+duplicate-free union — the disjointness and distinctness hypotheses of the `_partial` theorem are
+invariants (`Placed`: a bucket is only ever created in the storage its name is routed to). So the
+duplicates of `list_buckets_duplicates_witness` arise exactly from a storage being listed twice. -/
+theorem list_buckets_union_nodup_reachable (cm : Bool) (fx : Fixes) (q : Quirks) (c : Cfg) (n : Nat)
+    (ops : List XOp) (hsrc : (listSources c).Nodup) :
+    (listBuckets ⟨cm, false⟩ c (rrun fx q c (List.replicate n {}) ops).1).Nodup ∧
+    ∀ nm, nm ∈ listBuckets ⟨cm, false⟩ c (rrun fx q c (List.replicate n {}) ops).1 ↔
+      ∃ i ∈ listSources c, nm ∈ bucketNames (getS (rrun fx q c (List.replicate n {}) ops).1 i) := by
+  have hp := placed_run fx q c ops _ (placed_empty c n)
+  refine list_buckets_union_nodup_partial cm c _ hsrc (fun i _ => (placed_getS hp i).1) ?_
+  intro i _ j _ hij nm hi hj
+  exact hij (((placed_getS hp i).2 nm hi).symm.trans ((placed_getS hp j).2 nm hj))
 
 def wcfg : Cfg := { map := [("b0", 1), ("b1", 1)], dflt := 0 }
 
